@@ -139,10 +139,10 @@ class ObRecord:
         self.result = None
 
 
-def explore_contract(c, E=None, mutate=None):
+def explore_contract(c, E=None, mutate=None, only_cases=None):
     """Symbolically execute the target of contract c; returns (obligation records, stats)."""
     records, stats = [], {"paths": 0, "outside": [], "returns": 0, "raises": 0, "functions": set()}
-    for case in c.cases:
+    for case in (c.cases if only_cases is None else only_cases):
         E = make_engine()
         c.setup(E)
         finfo = E.index.lookup(c.target)
@@ -228,3 +228,137 @@ def discharge_records(records, budget_s, nproc=None):
         if r.result is None:
             r.result = res[r.id]
     return records
+
+
+# ---------------------------------------------------------------------------------------------------------------
+def solve_inprocess(records, budget_s, inner_nproc=1):
+    """discharge inside the current (worker) process; the parent enforces the hard deadline on the worker"""
+    todo = [r for r in records if r.result is None]
+    if inner_nproc > 1 and len(todo) > 8:
+        jobs = [{"id": r.id, "query": r.query, "model_terms": r.model_terms} for r in todo]
+        res = solve.discharge(jobs, budget_s=budget_s, nproc=inner_nproc, portfolio=False, stage1=min(budget_s, 3.0))
+        for r in todo:
+            r.result = res[r.id]
+            if r.result["status"] != "proved":
+                try:
+                    sv = z3.Solver()
+                    for a in r.query:
+                        sv.add(a)
+                    r.result["smt2"] = sv.to_smt2()
+                except Exception:
+                    pass
+        return
+    for r in records:
+        if r.result is not None:
+            continue
+        t0 = time.time()
+        sv = z3.Solver()
+        sv.set("timeout", int(min(budget_s, 3.0) * 1000))
+        for a in r.query:
+            sv.add(a)
+        try:
+            res = sv.check()
+        except Exception as e:
+            r.result = {"status": "unknown", "reason": repr(e), "solver": "z3-5.1-api", "time_s": round(time.time() - t0, 4)}
+            continue
+        st = "proved" if res == z3.unsat else ("refuted" if res == z3.sat else "unknown")
+        r.result = {"status": st, "solver": "z3-5.1-api", "time_s": round(time.time() - t0, 4)}
+        if res == z3.sat:
+            m = sv.model()
+            vals = {}
+            for name, t in r.model_terms.items():
+                try:
+                    vals[name] = solve.term_to_py(m.eval(t, model_completion=True))
+                except Exception as e:
+                    vals[name] = f"<{e}>"
+            r.result["model"], r.result["model_text"] = vals, str(m)[:4000]
+        elif res == z3.unknown:
+            r.result["reason"] = sv.reason_unknown()
+        if st != "proved":
+            try:
+                r.result["smt2"] = sv.to_smt2()
+            except Exception:
+                pass
+
+
+def run_task(kind, obj, case, budget_s, inner_nproc=1):
+    """one unit of parallel work: a (contract, case) pair or a lemma.  Returns JSON-able dicts."""
+    if kind == "contract":
+        recs, st = explore_contract(obj, only_cases=[case])
+    else:
+        recs, st = lemma_records(obj), {"paths": 0, "outside": [], "returns": 0, "raises": 0, "functions": set()}
+    solve_inprocess(recs, budget_s, inner_nproc)
+    out = []
+    for r in recs:
+        goal = ""
+        if r.query:
+            try:
+                goal = str(z3.simplify(z3.Not(r.query[-1])))[:400]
+            except Exception:
+                pass
+        out.append({"id": r.id, "kind": r.kind, "label": r.label, "function": r.function, "path": r.path, "result": r.result, "by_solver": bool(r.query), "goal": goal})
+    st = {k: (sorted(v) if isinstance(v, set) else v) for k, v in st.items()}
+    return {"records": out, "stats": st}
+
+
+def run_parallel(tasks, budget_s, nproc=None, task_deadline_s=600):
+    """tasks: list of (key, kind, obj, case).  Forked workers; each returns its JSON through a pipe; hard kill at the deadline."""
+    import select, signal
+    nproc = nproc or min(16, os.cpu_count() or 4)
+    inner = max(1, nproc // max(1, len(tasks)))
+    pending, running, results = list(tasks), {}, {}
+    while pending or running:
+        while pending and len(running) < nproc:
+            key, kind, obj, case = pending.pop(0)
+            rfd, wfd = os.pipe()
+            sys.stdout.flush()
+            sys.stderr.flush()
+            pid = os.fork()
+            if pid == 0:
+                os.close(rfd)
+                try:
+                    try:
+                        res = run_task(kind, obj, case, budget_s, inner)
+                    except OutsideSubset as o:
+                        res = {"records": [], "stats": {"paths": 0, "outside": [f"{getattr(obj, 'id', '?')}[{case}]: {o}"], "returns": 0, "raises": 0, "functions": []}}
+                    except BaseException:
+                        res = {"crash": traceback.format_exc()}
+                    data = json.dumps(res, default=str).encode()
+                    off = 0
+                    while off < len(data):
+                        off += os.write(wfd, data[off:off + 65536])
+                finally:
+                    os._exit(0)
+            os.close(wfd)
+            running[pid] = (key, rfd, time.time() + task_deadline_s, bytearray())
+        done = []
+        rlist = [v[1] for v in running.values()]
+        if rlist:
+            ready, _, _ = select.select(rlist, [], [], 0.05)
+        else:
+            ready = []
+        for pid, (key, rfd, deadline, buf) in list(running.items()):
+            if rfd in ready:
+                chunk = os.read(rfd, 1 << 20)
+                if chunk:
+                    buf.extend(chunk)
+                else:
+                    os.close(rfd)
+                    os.waitpid(pid, 0)
+                    try:
+                        results[key] = json.loads(bytes(buf).decode())
+                    except Exception:
+                        results[key] = {"crash": "worker died without a result"}
+                    done.append(pid)
+            elif time.time() > deadline:
+                try:
+                    os.kill(pid, signal.SIGKILL)
+                except ProcessLookupError:
+                    pass
+                os.waitpid(pid, 0)
+                os.close(rfd)
+                results[key] = {"timeout": True}
+                done.append(pid)
+        for pid in done:
+            del running[pid]
+    return results
